@@ -441,10 +441,12 @@ pub fn apply(root: &mut MObj, call: &Call, enc: TextEncoding, new_id: Option<&st
             // aligned end?
             let end = i + (d as usize);
             let q = if end >= len { obj.text.len() } else { match starts.iter().position(|s| *s == end) { Some(q) => q, None => return Expect::Unspecified } };
-            let any_marks = obj.has_marks();
+            // marks of inserted text are not predicted: even a text that shows no mark
+            // may hold mark anchors around deleted characters, and text inserted between
+            // them is (rightly) covered. Boundary growth is judged in C25's controlled scenario.
             let new: Vec<TElem> = split_text(enc, text)
                 .into_iter()
-                .map(|g| TElem { vals: vec![MEntry { id: None, val: MVal::Scalar(json!({"str": g})) }], marks: if any_marks { None } else { Some(BTreeMap::new()) } })
+                .map(|g| TElem { vals: vec![MEntry { id: None, val: MVal::Scalar(json!({"str": g})) }], marks: None })
                 .collect();
             obj.text.splice(p..q, new);
             Expect::Ok
@@ -492,8 +494,7 @@ pub fn apply(root: &mut MObj, call: &Call, enc: TextEncoding, new_id: Option<&st
                 return Expect::Err;
             }
             let p = if *index == len { obj.text.len() } else { match starts.iter().position(|s| s == index) { Some(p) => p, None => return Expect::Unspecified } };
-            let any_marks = obj.has_marks();
-            obj.text.insert(p, TElem { vals: vec![MEntry { id: Some(nid.clone()), val: MVal::Obj(Box::new(empty_obj(ObjType::Map, &nid))) }], marks: if any_marks { None } else { Some(BTreeMap::new()) } });
+            obj.text.insert(p, TElem { vals: vec![MEntry { id: Some(nid.clone()), val: MVal::Obj(Box::new(empty_obj(ObjType::Map, &nid))) }], marks: None });
             Expect::Ok
         }
         Call::JoinBlock { index, .. } => {
